@@ -5,6 +5,7 @@ From GoMC Require Import Base.Bytes Base.Dec Gen.Consts Model.C01 Model.C02 Proo
   Proofs.C02_dec Proofs.C02 Proofs.C02_struct Proofs.C02_all Proofs.C02_emb.
 From GoMC Require Import Base.GoInt Model.C02_syntax Gen.C02gen Proofs.C02_expected Proofs.C02_tie Proofs.C02_tie2
   Proofs.C02_tie3 Proofs.C02_tie4 Proofs.C02_tie5 Proofs.C02_emb2 Proofs.C02_tie6 Proofs.C02_tie7 Proofs.C02_emb3.
+From GoMC Require Import Model.C02_tf Proofs.C02_tf Proofs.C02_carctx.
 From GoMC Require Model.C03_syntax Gen.C03gen.
 Import ListNotations.
 Open Scope N_scope.
@@ -498,3 +499,133 @@ Example C02_ex_embedded_full :
   canon_emb (ex_tie true) [VE (Some [VF (GvInt 5); VF (GvInt 6)]); VE None] = [VE (Some [VF (GvInt 0); VF (GvInt 6)]); VE None].
 Proof. split; vm_compute; reflexivity. Qed.
 Print Assumptions C02_embedded_roundtrip_full.
+
+(* ------------------------------------------------------------------------------------------------------------------ *)
+(* CARRIERS IN CONTEXTS (Proofs/C02_carctx.v): RawMessage / dynbt.Value (c = YRaw or YDyn) as a struct field, as the
+   elements of a map and of a slice: decoded from the document of ANY well-formed tree of that shape (both formats, any
+   root name, anything following), then handed to Marshal (by value or pointer): exactly the document comes back.
+   cval c x is the carrier holding x; a repeated key INSIDE x is kept (C02_carrier_dyn_keeps_entries). *)
+Theorem C02_carrier_field : forall c f byval name k o x rest,
+  carrier_ty c -> wf (TCompound [(k, x)]) -> nest_ok (TCompound [(k, x)]) -> name_ok name = true ->
+  unmarshal f (YStruct [(FInfo k o false false, c)]) (doc f name (TCompound [(k, x)]) ++ rest)
+    = DOk (root_name f name) (GvStruct [cval c x]) rest /\
+  marshal f byval name (YStruct [(FInfo k o false false, c)]) (GvStruct [cval c x]) = MOk (doc f name (TCompound [(k, x)])).
+Proof. exact carrier_field_val. Qed.
+(* map: pairwise distinct root keys (a Go map keeps one entry per key: C02_carrier_map_gen says what happens otherwise);
+   the model's iteration order is the order of insertion; for any other order m the encoder writes the entries in that
+   order, each byte-exact (C02_carrier_map_any_order) *)
+Theorem C02_carrier_map : forall c f byval name es rest,
+  carrier_ty c -> wf (TCompound es) -> nest_ok (TCompound es) -> name_ok name = true -> keys_nodup es = true ->
+  unmarshal f (YMap c) (doc f name (TCompound es) ++ rest) = DOk (root_name f name) (GvMap (mapv (cval c) es)) rest /\
+  marshal f byval name (YMap c) (GvMap (mapv (cval c) es)) = MOk (doc f name (TCompound es)).
+Proof. exact carrier_map_val. Qed.
+Theorem C02_carrier_map_gen : forall c f byval name es rest,
+  carrier_ty c -> wf (TCompound es) -> nest_ok (TCompound es) -> name_ok name = true ->
+  unmarshal f (YMap c) (doc f name (TCompound es) ++ rest)
+    = DOk (root_name f name) (GvMap (mapv (cval c) (map_of_list es))) rest /\
+  marshal f byval name (YMap c) (GvMap (mapv (cval c) (map_of_list es))) = MOk (doc f name (TCompound (map_of_list es))).
+Proof. exact carrier_map_gen. Qed.
+Theorem C02_carrier_map_any_order : forall c f byval name m,
+  carrier_ty c -> wf (TCompound m) -> name_ok name = true ->
+  marshal f byval name (YMap c) (GvMap (mapv (cval c) m)) = MOk (doc f name (TCompound m)).
+Proof. exact carrier_map_any_order. Qed.
+(* slice: every non-empty list, and the empty list whose element id is the one of the Go element type (TagCompound for
+   []RawMessage, TagEnd for []*Value: a Go slice type carries no element id - C02_carrier_slice_gen for the others) *)
+Theorem C02_carrier_slice : forall c f byval name eid l rest,
+  carrier_ty c -> wf (TList eid l) -> nest_ok (TList eid l) -> name_ok name = true ->
+  (l <> [] \/ eid = tag_by_ty c) ->
+  unmarshal f (YSlice c) (doc f name (TList eid l) ++ rest) = DOk (root_name f name) (GvList (map (cval c) l)) rest /\
+  marshal f byval name (YSlice c) (GvList (map (cval c) l)) = MOk (doc f name (TList eid l)).
+Proof. exact carrier_slice_val. Qed.
+Theorem C02_carrier_slice_gen : forall c f byval name eid l rest,
+  carrier_ty c -> wf (TList eid l) -> nest_ok (TList eid l) -> name_ok name = true ->
+  unmarshal f (YSlice c) (doc f name (TList eid l) ++ rest) = DOk (root_name f name) (GvList (map (cval c) l)) rest /\
+  marshal f byval name (YSlice c) (GvList (map (cval c) l)) = MOk (doc f name (TList (slice_eid c eid l) l)).
+Proof. exact carrier_slice_gen. Qed.
+(* the byte-level dynbt value keeps every entry of a compound in order, repeated keys included, and what the carrier
+   itself writes (dyn_enc of that value / the raw data) is the payload of its tree inside the re-encoded document *)
+Theorem C02_carrier_dyn_keeps_entries : forall es,
+  dyn2_of (TCompound es) = D2Comp (map (fun kv => (fst kv, dyn2_of (snd kv))) es).
+Proof. exact dyn2_keeps_entries. Qed.
+Theorem C02_carrier_ctx_bytes : forall c x, wf x -> carrier_bytes c x = payload x.
+Proof. exact carrier_bytes_exact. Qed.
+Theorem C02_carrier_field_bytes : forall c k x, wf (TCompound [(k, x)]) ->
+  payload (TCompound [(k, x)]) = tag_id x :: be 2 (lenN k) ++ k ++ carrier_bytes c x ++ [idEnd].
+Proof. exact carrier_field_bytes. Qed.
+(* hypotheses satisfiable: a dynbt.Value with the key "a" TWICE inside, in a struct field, bytes spelled out; a map with
+   two keys; a slice of two compounds; and the two shapes where exactness fails (repeated ROOT key of a map, empty list
+   of a foreign element id) *)
+Example C02_ex_carrier_field_dup :
+  wf ex_field_doc /\ nest_ok ex_field_doc /\ name_ok [114] = true /\ keys_nodup [([97], TByte 1); ([97], TByte 2)] = false /\
+  doc File [114] ex_field_doc = [10; 0; 1; 114; 10; 0; 1; 70; 1; 0; 1; 97; 1; 1; 0; 1; 97; 2; 0; 0] /\
+  unmarshal File (YStruct [(FInfo [70] false false false, YDyn)]) (doc File [114] ex_field_doc ++ [7; 7])
+    = DOk [114] (GvStruct [GvDyn (Some ex_dup)]) [7; 7] /\
+  marshal File true [114] (YStruct [(FInfo [70] false false false, YDyn)]) (GvStruct [GvDyn (Some ex_dup)])
+    = MOk [10; 0; 1; 114; 10; 0; 1; 70; 1; 0; 1; 97; 1; 1; 0; 1; 97; 2; 0; 0] /\
+  dyn2_of ex_dup = D2Comp [([97], D2Data 1 [1]); ([97], D2Data 1 [2])] /\
+  dyn_enc (dyn2_of ex_dup) = [1; 0; 1; 97; 1; 1; 0; 1; 97; 2; 0].
+Proof. exact ex_carrier_field_dup. Qed.
+Example C02_ex_carrier_ctx_hyps :
+  (carrier_ty YRaw /\ carrier_ty YDyn) /\
+  (wf (TCompound ex_map_es) /\ nest_ok (TCompound ex_map_es) /\ keys_nodup ex_map_es = true) /\
+  (wf (TList idCompound ex_slice_l) /\ nest_ok (TList idCompound ex_slice_l) /\ ex_slice_l <> []).
+Proof. repeat split; try (vm_compute; reflexivity); try (now left); try (now right); discriminate. Qed.
+Print Assumptions C02_carrier_field.
+Print Assumptions C02_carrier_map.
+Print Assumptions C02_carrier_map_gen.
+Print Assumptions C02_carrier_map_any_order.
+Print Assumptions C02_carrier_slice.
+Print Assumptions C02_carrier_slice_gen.
+Print Assumptions C02_carrier_dyn_keeps_entries.
+Print Assumptions C02_carrier_ctx_bytes.
+Print Assumptions C02_carrier_field_bytes.
+
+(* ------------------------------------------------------------------------------------------------------------------ *)
+(* typeFields WITH TYPE IDENTITIES (Model/C02_tf.v; Proofs/C02_tf.v): tf_collect / tf_table model the level queues, the
+   visited map, count / nextCount, the second copy recorded for a type queued more than once, the index sequence built as
+   a copy of the parent's plus the field number, the sort and dominantField (counted with multiplicities); compared with
+   nbt.typeFields entry by entry on reflect-built struct type graphs (T lines).
+   THE CODE MEETS THE SPECIFICATION, for every declaration tree and every assignment of type identities: the candidates
+   collected through queues and counters are those of the level-wise specification spec_cands (of each level's
+   occurrences, in index order, the first of every type not explored on a shallower level is explored; its fields count
+   twice when the type occurs more than once on that level) *)
+Theorem C02_tf_collect_spec : forall root ds, tf_collect root ds = spec_cands root ds.
+Proof. exact collect_meets_spec. Qed.
+(* and the table holds exactly the PROMOTED candidates: every other candidate of the same name - a second copy of itself
+   included - is strictly deeper, or as deep and untagged while the entry is tagged (shallowest wins; a tie on one depth
+   drops the name unless exactly one is tagged; a type embedded twice on one level contributes nothing of its own) *)
+Theorem C02_tf_table_spec : forall root ds x, In x (tf_table root ds) <-> promoted (spec_cands root ds) x.
+Proof. exact table_spec. Qed.
+Theorem C02_tf_names_unique : forall root ds, NoDup (map (fun x => f_name (tf_fi x)) (tf_table root ds)).
+Proof. exact table_names_nodup. Qed.
+(* INDEX SEQUENCES: the index sequence of every table entry is exactly the sequence of embedding indices followed by the
+   field's own index - walking the DECLARATION along it ends at that very field (name, options, tagged, type) - and no two
+   entries have the same one.  An `append(f.index, i)` that writes into a shared array breaks exactly this (C02_ex_alias_
+   sensitive); on the implementation the harness checks cap(index) = len(index) and the walk with reflect. *)
+Theorem C02_tf_paths_exact : forall root ds x, In x (tf_table root ds) ->
+  leaf_at (tf_path x) ds = Some (tf_fi x, tf_tagged x, tf_ty x).
+Proof. exact table_paths_exact. Qed.
+Theorem C02_tf_collect_paths_exact : forall root ds x, In x (tf_collect root ds) ->
+  leaf_at (tf_path x) ds = Some (tf_fi x, tf_tagged x, tf_ty x).
+Proof. exact collect_paths_exact. Qed.
+Theorem C02_tf_paths_nodup : forall root ds, NoDup (map tf_path (tf_table root ds)).
+Proof. exact table_paths_nodup. Qed.
+(* instances: embedding depth 3, two fields innermost, value and pointer embedding.  (1) all types different: X, Y of the
+   innermost struct are promoted from depth 4.  (2) the innermost type 7 embedded through two parents on one level: its
+   fields annihilate, the shallower B survives.  (3) type 5 reached twice on level 1 embeds type 7 ONCE each: 7 is queued
+   once per explored parent, so its fields are recorded once and survive (encoding/json's rule, kept by nbt). *)
+Definition ex_fi (c : N) : finfo := FInfo [c] false false false.
+Open Scope nat_scope.
+Definition ex_in : list sfield := [SF (ex_fi 88) false (YInt true 32); SF (ex_fi 89) true (YInt true 32)].
+Example C02_ex_tf :
+  map tf_path (tf_table 0 [SE false 1 [SE true 2 [SE false 3 ex_in]]; SF (ex_fi 66) false YStr]) = [[0;0;0;0]; [0;0;0;1]; [1]] /\
+  map tf_path (tf_table 0 [SE false 1 [SE false 7 ex_in]; SE true 2 [SE true 7 ex_in; SF (ex_fi 66) false YStr]]) = [[1;1]] /\
+  map tf_path (tf_collect 0 [SE false 1 [SE false 7 ex_in]; SE true 2 [SE true 7 ex_in]]) = [[0;0;0]; [0;0;0]; [0;0;1]; [0;0;1]] /\
+  map tf_path (tf_table 0 [SE false 5 [SE false 7 ex_in]; SE true 5 [SE false 7 ex_in]]) = [[0;0;0]; [0;0;1]].
+Proof. repeat split; vm_compute; reflexivity. Qed.
+Print Assumptions C02_tf_collect_spec.
+Print Assumptions C02_tf_table_spec.
+Print Assumptions C02_tf_names_unique.
+Print Assumptions C02_tf_paths_exact.
+Print Assumptions C02_tf_collect_paths_exact.
+Print Assumptions C02_tf_paths_nodup.
